@@ -577,6 +577,17 @@ func exercise[T any](c *chk, m fpgo.MaybeDef[T], v, fb T, p params) {
 			}
 		}
 	})
+
+	// --- CloneTo(m, dest): the clone of an ABSENT Maybe is absent, whatever destination is offered
+	c.call("CloneTo", func() {
+		if !ab {
+			return
+		}
+		cl := fpgo.CloneTo[T](m, fb)
+		if cl == nil || !cl.IsNil() || cl.IsPresent() {
+			c.fail("C01/CloneTo", "CloneTo(absent, non-nil destination) is present: the clone of an absent value is not an equal Maybe")
+		}
+	})
 }
 
 // absentOf returns an absent MaybeDef[T] when T admits one (pointer or
@@ -647,6 +658,14 @@ var anyShapes = []string{
 	"faulty Stringer", "struct embedding nil Stringer", "*faulty error",
 	// a reflect.Value is an ordinary struct value, whatever it describes
 	"reflect.Value(ptr)", "reflect.Value(nil ptr)", "reflect.Value(int)", "reflect.Value{}",
+	// a nil pointer is absent - also when its pointer TYPE happens to implement MaybeDef itself
+	"nil *Box(embeds Maybe)", "*Box(embeds Maybe)",
+}
+
+// Box embeds a Maybe: *Box (and Box) implement MaybeDef[any] through the promoted methods
+type Box struct {
+	fpgo.MaybeDef[any]
+	Tag string
 }
 
 // weekday-like enum whose String() indexes a table: out-of-range values make String() panic
@@ -756,6 +775,10 @@ func buildAny(shape string, p picks) (v any, fb any) {
 	case "*map(nil)":
 		var mm map[string]int
 		return &mm, fb
+	case "nil *Box(embeds Maybe)":
+		return (*Box)(nil), fb
+	case "*Box(embeds Maybe)":
+		return &Box{MaybeDef: fpgo.Maybe.Just(int(p.I)), Tag: "t"}, fb
 	case "reflect.Value(ptr)":
 		x := int(p.I)
 		return reflect.ValueOf(&x), fb
